@@ -9,6 +9,7 @@ func init() {
 			"(A9) NewStaticWarning takes File/RowNumber/RowContent/HeaderContent from the file's accessors, the accessors return the corresponding fields, and rowNumber is incremented by exactly one only on the path that hands out a row (first data row = 1). " +
 			"RowContent hands out the header exactly while the record counter is 0 (its tests on the counter are evaluated for 0..3); (SCAN) no row loop is left by a break; (ROWSTATE) every field of the per-row object of csv.File is renewed on every path of NextRow that announces a row: what a rejected row left there (e.g. the blank required cells noted so far) cannot make the next row rejected. Not decided: which rows count as invalid (C01/C03 cover the reject conditions' targets).",
 		Rules: []Rule{
+			{Name: "G13", Doc: "a row whose required reference does not resolve is rejected: at every append the references GTFS requires are non-nil (the rules of C03)", MinInstances: 4, Run: runRequiredRefs},
 			{Name: "SCAN", Doc: "a loop that does something for each element is not left early (no break out of a processing loop)", MinInstances: 1, Run: func(c *Ctx) { runFullScan(c, staticParseFns(c), "SCAN") }},
 			{Name: "REJECT", Doc: "reject paths have no persistent effects", MinInstances: 7, Run: runRejectInert},
 			{Name: "CACHE", Doc: "trip cache coherence", MinInstances: 1, Run: runCacheCoherence},
